@@ -26,6 +26,8 @@ import (
 //   - gen "tlc": a shape enumerated by ChunkMergeMC (timestamps = grid cells, encoder cap k).
 //     Every cell is inflated to 120/k samples, "step" ms apart, series s shifted by phases[s], so
 //     that the real encoder's 120-sample cut falls where the model's k-sample cut does.
+//   - gen "compact": raw replica blocks -> downsample.Downsample -> vertical compaction with the
+//     penalty merge function (c40_compact_test.go).
 //   - gen "rand": seeded random series (1..400 samples each, 2..3 series, random chunk lengths,
 //     phases, gaps), regenerated from "cseed".
 //
@@ -47,6 +49,10 @@ func TestC40(t *testing.T) {
 			yield(vt.Case{"gen": "tlc", "series": c["series"], "tags": tags, "k": k, "step": 300000,
 				"phases": phases, "aggs": []int{1, 1, 1, 1, 1}, "zero": false})
 		}
+		for i, nc := 0, vt.Pick(6, 60); i < nc; i++ { // the whole offline path, see c40_compact_test.go
+			yield(vt.Case{"gen": "compact", "cseed": rnd.Int63n(1 << 40), "aggs": []int{1, 1, 1, 1, 1}, "zero": false,
+				"maxwin": vt.Pick(260, 400)})
+		}
 		n := vt.Pick(150, 1500)
 		for i := 0; i < n; i++ {
 			aggs := []int{1, 1, 1, 1, 1}
@@ -58,6 +64,9 @@ func TestC40(t *testing.T) {
 		}
 	}
 	vt.Run(t, gen, func(vt.Case) string { return "" }, func(c vt.Case) vt.Event {
+		if vt.Str(c["gen"]) == "compact" {
+			return guarded(func() vt.Event { return observeC40Compact(c) }, vt.Event{"out": []any{}, "nin": 0})
+		}
 		return guarded(func() vt.Event { return observeC40(c) }, vt.Event{"out": []any{}, "nin": 0})
 	})
 }
@@ -231,34 +240,12 @@ func observeC40(c vt.Case) (ev vt.Event) {
 	out := []any{}
 	for it.Next() {
 		m := it.At()
-		ac, ok := m.Chunk.(*downsample.AggrChunk)
-		if !ok {
-			ev["err"] = fmt.Sprintf("result chunk has encoding %v, not an aggregate chunk", m.Chunk.Encoding())
+		o, err := aggrRuns(m)
+		if err != nil {
+			ev["err"] = err.Error()
 			return ev
 		}
-		runs := make([][][]int64, 5)
-		for a := 0; a < 5; a++ {
-			runs[a] = [][]int64{}
-			sc, err := ac.Get(downsample.AggrType(a))
-			if err == downsample.ErrAggrNotExist {
-				continue
-			}
-			if err != nil {
-				ev["err"] = fmt.Sprintf("result chunk: Get(%d): %v", a, err)
-				return ev
-			}
-			var ts []int64
-			sit := sc.Iterator(nil)
-			for sit.Next() != chunkenc.ValNone {
-				ts = append(ts, sit.AtT())
-			}
-			if err := sit.Err(); err != nil {
-				ev["err"] = fmt.Sprintf("result chunk: aggregate %d: %v", a, err)
-				return ev
-			}
-			runs[a] = rle(ts)
-		}
-		out = append(out, map[string]any{"mint": m.MinTime, "maxt": m.MaxTime, "runs": runs})
+		out = append(out, o)
 		ev["out"] = out
 		if len(out) > nin+8 {
 			ev["err"] = "merged series yields more chunks than the inputs hold samples"
